@@ -81,29 +81,36 @@ type vc10Gen struct {
 	writeAt      int    // 0 none, 1 only at the current offset, 2 anywhere except the start of the pending write run, 3 anywhere incl. run start, 4 mostly run start
 	absSeekAfter bool   // every WriteAt at a non-current offset is directly followed by Seek(x, SeekStart)
 	seekEnd      bool   // Seek(off != 0, SeekEnd)
-	seekNeg      bool   // Seek to a negative target
+	seekNeg      int    // Seek to a negative target with chance 1/seekNeg (0 = never)
 	writeAfterRd bool   // Write directly after a Read that advanced the offset (no Seek between)
 	staleReader  bool   // Truncate / extending Seek while a reader obtained by an earlier Read is alive, then Read
 }
 
 var vc10Strata = []vc10Gen{
-	{name: "clean", init: "native", writeAt: 1},
+	// clean: every operation pattern except the trigger of the one recorded
+	// call-pattern finding (a Write directly after a Read): WriteAt anywhere
+	// (also at the start of the pending buffer, also without a Seek after it),
+	// SeekEnd with any offset, negative targets, Truncate / extending Seek
+	// while a reader is alive, initial files incl. a dag-pb leaf with inline data.
+	{name: "clean", init: "native", writeAt: 3, seekEnd: true, seekNeg: 8, staleReader: true},
+	// focus strata: same oracle, generator concentrated on one pattern
 	{name: "writeat-seek", init: "native", writeAt: 2, absSeekAfter: true},
 	{name: "seekend", init: "native", writeAt: 1, seekEnd: true},
-	{name: "seekneg", init: "native", writeAt: 1, seekNeg: true},
-	{name: "read-write", init: "native", writeAt: 1, writeAfterRd: true},
+	{name: "seekneg", init: "native", writeAt: 1, seekNeg: 2},
 	{name: "writeat-offset", init: "native", writeAt: 2},
-	{name: "writeat-runstart", init: "native", writeAt: 4, absSeekAfter: true},
-	{name: "init-inline", init: "inline", writeAt: 2, absSeekAfter: true},
-	{name: "init-foreign", init: "foreign", writeAt: 2, absSeekAfter: true},
-	{name: "identity-kept", init: "identity", writeAt: 2, absSeekAfter: true},
+	{name: "writeat-runstart", init: "native", writeAt: 4},
+	{name: "init-inline", init: "inline", writeAt: 3, seekEnd: true, staleReader: true},
 	{name: "stale-reader", init: "native", writeAt: 1, staleReader: true},
+	// strata containing the trigger of a recorded finding
+	{name: "read-write", init: "native", writeAt: 3, seekEnd: true, staleReader: true, writeAfterRd: true},
+	{name: "init-foreign", init: "foreign", writeAt: 3, seekEnd: true, staleReader: true},
+	{name: "identity-kept", init: "identity", writeAt: 3, seekEnd: true, staleReader: true},
 }
 
 func vc10Run(c *vlib.Ctx) {
-	c.Rule("histories of 4-24 ops {Write, WriteAt, Seek(3 whences), Read, CtxReadFull, Truncate, Size, Sync, GetNode+read-back} over initial files 0..4 KiB built by trickle/balanced importers, a bare raw node, a single dag-pb leaf or an empty node; CID v0/v1(sha2-256, blake2b-256)/identity; modifier MaxLinks 2..8, size-16..512 chunker, writebufferSize 0..64 or default; strata enable one trigger pattern of a recorded finding each (clean and writeat-seek enable none); distinct = FNV of config + op list; non-trivial = history has a WriteAt at an offset != current, a Seek with whence != SeekStart, a flush into a DAG of depth >= 2 and ended with a successful read-back comparison")
-	nq := map[string]int{"clean": 2400, "writeat-seek": 1800, "seekend": 300, "seekneg": 300, "read-write": 400, "writeat-offset": 400, "writeat-runstart": 400, "init-inline": 400, "init-foreign": 300, "identity-kept": 200, "stale-reader": 300}
-	nt := map[string]int{"clean": 40000, "writeat-seek": 30000, "seekend": 3000, "seekneg": 3000, "read-write": 5000, "writeat-offset": 5000, "writeat-runstart": 5000, "init-inline": 5000, "init-foreign": 5000, "identity-kept": 3000, "stale-reader": 4000}
+	c.Rule("histories of 4-24 ops {Write, WriteAt, Seek(3 whences), Read, CtxReadFull, Truncate, Size, Sync, GetNode+read-back} over initial files 0..4 KiB built by trickle/balanced importers, a bare raw node, a single dag-pb leaf or an empty node; CID v0/v1(sha2-256, blake2b-256)/identity; modifier MaxLinks 2..8, size-16..512 chunker, writebufferSize 0..64 or default; stratum clean mixes everything except a Write directly after a Read, focus strata concentrate on one pattern, read-write/init-foreign/identity-kept contain the trigger of a recorded finding; every node returned by GetNode is kept and re-verified (CID and bytes) after every later operation; distinct = FNV of config + op list; non-trivial = history has a WriteAt at an offset != current, a Seek with whence != SeekStart, a flush into a DAG of depth >= 2 and ended with a successful read-back comparison")
+	nq := map[string]int{"clean": 3600, "writeat-seek": 800, "seekend": 300, "seekneg": 300, "writeat-offset": 400, "writeat-runstart": 400, "init-inline": 500, "stale-reader": 400, "read-write": 300, "init-foreign": 300, "identity-kept": 200}
+	nt := map[string]int{"clean": 50000, "writeat-seek": 10000, "seekend": 3000, "seekneg": 3000, "writeat-offset": 5000, "writeat-runstart": 5000, "init-inline": 6000, "stale-reader": 5000, "read-write": 4000, "init-foreign": 5000, "identity-kept": 3000}
 	for _, g := range vc10Strata {
 		g := g
 		c.Cases(g.name, c.N(nq[g.name], nt[g.name]), func(k *vlib.Case) { vc10History(k, g) })
@@ -160,8 +167,21 @@ type vc10World struct {
 	runStart    int64
 	fired       map[string]bool
 
+	held   []vc10Held // every node returned by GetNode, with its CID and bytes at that time
+	lastOp string
+
 	sawWriteAtNonCur, sawSeekWhence, sawDeepFlush, readBackOK bool
 	ops                                                       int
+}
+
+// vc10Held is a snapshot handed out by GetNode: whatever happens to the
+// modifier afterwards, this node must keep its CID and its content.
+type vc10Held struct {
+	nd    ipld.Node
+	c     cid.Cid
+	data  []byte
+	atOp  int
+	descr string
 }
 
 func (w *vc10World) cur() int64  { return w.states[0].off }
@@ -220,6 +240,9 @@ type vc10Obs struct {
 // 2 s apart and aborts the batch.
 func (w *vc10World) do(op string, fn func(o *vc10Obs)) vc10Obs {
 	o := new(vc10Obs)
+	if op != "HeldReadBack" && op != "ReadBack" {
+		w.lastOp = op
+	}
 	where := op
 	if t := w.trig(); t != "" {
 		where = t // hang class: hang/<fired trigger patterns>
@@ -348,13 +371,12 @@ func vc10History(k *vlib.Case, g vc10Gen) {
 	keepIdentity := false
 	switch g.init {
 	case "native":
-		kind = vlib.Pick(r, []string{"trickle", "trickle", "trickle", "rawnode", "empty"})
+		kind = vlib.Pick(r, []string{"trickle", "trickle", "trickle", "rawnode", "empty", "pbleaf"})
 		if kind == "rawnode" && r.Chance(1, 4) {
 			pi = 3 // identity raw node, modifier configured with a real hash (as MFS does)
 		}
 	case "inline":
 		kind = "pbleaf"
-		cfgFeat = "init-inline-root"
 		if r.Chance(1, 6) {
 			pi = 3
 		}
@@ -471,9 +493,15 @@ func vc10History(k *vlib.Case, g vc10Gen) {
 	nops := r.Range(4, 24)
 	for i := 0; i < nops && !k.Failed() && !k.C.Aborted(); i++ {
 		w.step()
+		if !k.Failed() && !k.C.Aborted() {
+			w.verifyHeld(w.lastOp)
+		}
 	}
 	if !k.Failed() && !k.C.Aborted() {
 		w.opGetNode()
+	}
+	if !k.Failed() && !k.C.Aborted() {
+		w.verifyHeld("GetNode")
 	}
 	k.C.Count("ops", int64(w.ops))
 	if len(w.fired) == 0 {
@@ -494,7 +522,7 @@ func (w *vc10World) step() {
 	// that the generator's idea of "current offset" is the implementation's
 	if w.ambiguousOff() || w.offArmed && g.absSeekAfter {
 		if g.absSeekAfter || g.writeAt == 1 || r.Chance(1, 2) {
-			abs := g.absSeekAfter || w.offArmed && g.name != "writeat-offset"
+			abs := g.absSeekAfter
 			switch {
 			case abs || r.Bool():
 				w.opSeek(w.pickTarget(false), io.SeekStart)
@@ -527,9 +555,13 @@ func (w *vc10World) step() {
 			if g.writeAt == 4 && w.runActive && r.Chance(3, 4) {
 				off = w.runStart
 			}
-			if off == w.cur() && w.readStale && !g.writeAfterRd {
-				w.opSeek(w.resyncSeek())
-				return
+			if w.readStale && !g.writeAfterRd {
+				for _, st := range w.states {
+					if st.off == off {
+						w.opSeek(w.resyncSeek())
+						return
+					}
+				}
 			}
 			if g.writeAt <= 2 && w.runActive && off == w.runStart && (off != w.cur() || w.ambiguousOff()) {
 				continue
@@ -542,7 +574,7 @@ func (w *vc10World) step() {
 				w.opSeek(int64(r.Range(-3, 3)), vlib.Pick(r, []int{3, -1, 7}))
 				return
 			}
-			target := w.pickTarget(g.seekNeg && r.Chance(1, 2))
+			target := w.pickTarget(g.seekNeg > 0 && r.Chance(1, g.seekNeg))
 			if target > w.size() && w.readerAlive && !g.staleReader {
 				target = int64(r.Range(0, int(w.size())))
 			}
@@ -552,7 +584,7 @@ func (w *vc10World) step() {
 				off = target
 			case io.SeekCurrent:
 				off = target - w.cur()
-				if !g.seekNeg {
+				if g.seekNeg == 0 {
 					for _, s := range w.states { // offset ambiguous after WriteAt: stay >= 0 in every admissible state
 						if s.off+off < 0 {
 							whence, off = io.SeekStart, target
@@ -717,9 +749,7 @@ func (w *vc10World) noteWrite(at int64, n int) {
 // offsetDependent is called by every op whose effect or result depends on the
 // current offset; it turns armed trigger patterns into fired ones.
 func (w *vc10World) offsetDependent() {
-	if w.offArmed {
-		w.fired["writeat-offset"] = true
-	}
+	// (formerly the writeat-offset finding; fixed in /repo, no class is derived from it any more)
 }
 
 func (w *vc10World) checkWriteResult(op string, o vc10Obs, n int) bool {
@@ -741,16 +771,22 @@ func (w *vc10World) opWrite(b []byte) {
 	w.ops++
 	w.k.Logf("Write %s   [model off=%d size=%d]", w.hex(b), w.cur(), w.size())
 	w.offsetDependent()
-	if w.readStale && len(b) > 0 {
+	if w.readStale { // also for len(b)==0: the empty buffer is still positioned at the stale writeStart
 		w.fired["write-after-read"] = true
 	}
 	o := w.do("Write", func(o *vc10Obs) { n, err := w.dm.Write(b); o.n, o.err = int64(n), err })
 	w.noteWrite(w.cur(), len(b))
-	for i := range w.states {
-		w.states[i] = w.states[i].clone()
-		w.states[i].writeAt(b, w.states[i].off)
-		w.states[i].off += int64(len(b))
+	var next []vc10State
+	for _, st := range w.states {
+		a := st.clone()
+		a.writeAt(b, a.off)
+		a.off += int64(len(b))
+		next = append(next, a)
+		if len(b) == 0 && st.off > int64(len(st.data)) {
+			next = append(next, st) // a zero-length write past the end need not extend the file (POSIX: it does not)
+		}
 	}
+	w.states = next
 	w.dedupe()
 	w.checkWriteResult("write", o, len(b))
 	w.noteFlushDepth()
@@ -785,11 +821,8 @@ func (w *vc10World) opWriteAt(b []byte, off int64) {
 	// and reposition" by comparing with its current offset, so a WriteAt is
 	// itself offset-dependent.
 	w.offsetDependent()
-	if atCur && w.readStale && len(b) > 0 {
+	if !nonCur && w.readStale { // at the current offset of some admissible state (also for len(b)==0)
 		w.fired["write-after-read"] = true
-	}
-	if len(b) > 0 && (feat == "runstart-shorter" || feat == "runstart-unknownlen") {
-		w.fired["writeat-"+feat] = true
 	}
 	o := w.do("WriteAt", func(o *vc10Obs) { n, err := w.dm.WriteAt(b, off); o.n, o.err = int64(n), err })
 	if !atCur {
@@ -808,6 +841,12 @@ func (w *vc10World) opWriteAt(b []byte, off int64) {
 		b2 := a.clone()
 		b2.off = off + int64(len(b))
 		next = append(next, a, b2) // offset unaffected (io.WriterAt) | offset = off+n (seek+write)
+		if len(b) == 0 && off > int64(len(s.data)) {
+			c := s.clone() // a zero-length write past the end need not extend the file
+			c2 := c.clone()
+			c2.off = off
+			next = append(next, c, c2)
+		}
 	}
 	w.states = next
 	w.dedupe()
@@ -827,24 +866,6 @@ func (w *vc10World) opSeek(off int64, whence int) {
 	}
 	if whence != io.SeekStart && wn[0] != 'i' {
 		w.sawSeekWhence = true
-	}
-	if whence == io.SeekEnd && off != 0 {
-		w.fired["seek-end-nonzero"] = true
-	}
-	if w.staleArmed {
-		w.fired["stale-reader"] = true
-	}
-	if whence >= io.SeekStart && whence <= io.SeekEnd {
-		neg := false // negative in at least one admissible state
-		for _, s := range w.states {
-			base := map[int]int64{io.SeekStart: 0, io.SeekCurrent: s.off, io.SeekEnd: int64(len(s.data))}[whence]
-			if base+off < 0 {
-				neg = true
-			}
-		}
-		if neg {
-			w.fired["seek-negative"] = true
-		}
 	}
 	w.syncing()
 	o := w.do("Seek", func(o *vc10Obs) { n, err := w.dm.Seek(off, whence); o.n, o.err = n, err })
@@ -927,10 +948,6 @@ func (w *vc10World) opRead(n int, full bool) {
 		name = "CtxReadFull"
 	}
 	w.k.Logf("%s len=%d   [model off=%d size=%d]", name, n, w.cur(), w.size())
-	w.offsetDependent()
-	if w.staleArmed {
-		w.fired["stale-reader"] = true
-	}
 	w.syncing()
 	buf := make([]byte, n)
 	o := w.do(name, func(o *vc10Obs) {
@@ -1142,6 +1159,59 @@ func (w *vc10World) opGetNode() {
 	}
 	w.readBackOK = true
 	w.noteFlushDepth()
+	if len(w.held) >= 6 { // keep the oldest and the five most recent
+		w.held = append(w.held[:1], w.held[2:]...)
+	}
+	w.held = append(w.held, vc10Held{nd: nd, c: nd.Cid(), data: append([]byte(nil), o.data...), atOp: w.ops, descr: fmt.Sprintf("GetNode at op %d (%d bytes, %s)", w.ops, len(o.data), nd.Cid())})
+}
+
+// verifyHeld re-reads every node handed out earlier by GetNode: its CID and
+// the bytes a fresh DagReader returns must be what they were at that time.
+func (w *vc10World) verifyHeld(after string) {
+	for _, h := range w.held {
+		if h.atOp == w.ops && after == "GetNode" {
+			continue // just taken
+		}
+		h := h
+		var got cid.Cid
+		var cidStale string
+		o := w.do("HeldReadBack", func(o *vc10Obs) {
+			got = h.nd.Cid()
+			dr, err := uio.NewDagReader(w.ctx, h.nd, w.dserv)
+			if err != nil {
+				o.err = err
+				return
+			}
+			defer dr.Close()
+			o.data, o.err = io.ReadAll(dr)
+			// the CID cached in the node may be stale: recompute from the bytes the node encodes to now
+			if pn, ok := h.nd.(*mdag.ProtoNode); ok {
+				if enc, err := pn.EncodeProtobuf(true); err == nil {
+					if c2, err := h.c.Prefix().Sum(enc); err == nil && !c2.Equals(h.c) {
+						cidStale = c2.String()
+					}
+				}
+			}
+		})
+		w.k.C.Count("held_node_reverifications", 1)
+		if o.hung || o.pan != nil {
+			return
+		}
+		class := "getnode-snapshot-mutated/" + after
+		switch {
+		case !got.Equals(h.c):
+			w.k.Fail(class, "held-node-cid", h.descr+": Cid() unchanged", "Cid() is now "+got.String())
+		case cidStale != "":
+			w.k.Fail(class, "held-node-encoding", h.descr+": node still encodes to its CID", "re-encoding hashes to "+cidStale)
+		case o.err != nil:
+			w.k.Fail(class, "held-node-readable", h.descr+": still readable", o.err.Error())
+		case !bytes.Equal(o.data, h.data):
+			w.k.Fail(class, "held-node-content", h.descr+": same bytes as when returned", fmt.Sprintf("%d bytes %s; %s", len(o.data), w.hex(o.data), vc10Diff(h.data, o.data)))
+		default:
+			continue
+		}
+		return
+	}
 }
 
 func vc10Diff(want, got []byte) string {
